@@ -6,8 +6,8 @@ set -e
 cd "$(dirname "$0")"
 export CARGO_NET_OFFLINE=true
 IDS=$(python3 -c "import json;print(' '.join(c['property_id'] for c in json.load(open('MANIFEST.json'))['checks']))")
-LEAN_TARGETS="ClarabelProofs.AuditTool cm_solver"
-BINS="--bin solver"
+LEAN_TARGETS="ClarabelProofs.AuditTool cm_solver cm_solverns"
+BINS="--bin solver --bin solverns"
 for id in $IDS; do
   low=$(echo "$id" | tr 'A-Z' 'a-z')
   LEAN_TARGETS="$LEAN_TARGETS ClarabelProofs.Props.$id cm_$low"
